@@ -200,6 +200,22 @@ def main():
                 confirmed = True
             if v["label"].endswith("(exit)") and rr.returncode == 253:
                 confirmed = True  # os.Exit(-3) ended the native process
+            if v.get("other") is not None and v["label"].endswith("(cross-path)"):
+                # two executions observed different bytes for the same call: run both natively
+                # (two separate processes) and compare what each hands to vSame under the same key
+                rp2 = rp[:-5] + "-other.json"
+                json.dump({"harness": run["harness"], "label": v["label"], "params": params, "items": v["other"]}, open(rp2, "w"), indent=1)
+                rr2 = sh([replayers[pkg], rp2], cwd="/tmp", env=env, timeout=120)
+                def same_lines(out):
+                    d = {}
+                    for l in out.splitlines():
+                        if l.startswith("VSAME "):
+                            parts = l.split(" ", 2)  # VSAME "key" "value": keys contain no blank
+                            if len(parts) == 3:
+                                d[parts[1]] = parts[2]
+                    return d
+                d1, d2 = same_lines(rr.stdout), same_lines(rr2.stdout)
+                confirmed = any(k in d2 and d2[k] != d1[k] for k in d1)
             k = (v["label"], v.get("known", ""))
             ent = by_label.setdefault(k, {"confirmed": None, "unconfirmed": []})
             if confirmed:
